@@ -372,7 +372,8 @@ func treeDepth(n *node) int {
 
 const c01Rule = "syntax tree generated by grammar level x three printings (minimal / random redundant / full parentheses, random spacing, comments, keyword case) x variable assignment; oracle: ResultTokens equal the tree's post-order and the value equals direct node-by-node evaluation of the tree with the library's own operators in written order; non-trivial = an operator has an operator operand, or a call has >= 2 arguments; distinct by (tree, assignment)"
 
-var c01VarNames = []string{"a", "b", "c", "d", "e"}
+// variable names: one-letter and longer ones, some whose first and last characters coincide
+var c01VarNames = []string{"a", "bb", "tot", "d_1", "eve"}
 
 func genC01Value(t *rapid.T) val {
 	switch rapid.IntRange(0, 11).Draw(t, "vk") {
